@@ -20,7 +20,7 @@ TYPES = [
 ]
 PANDAS_TYPES = {'pd_index_int', 'pd_index_str', 'pd_period_y', 'pd_period_q', 'pd_datetime'}
 
-_MIXED = ['a', 7, (1, 2), 'zz', 3.5, ('k',), -2, 'Q', 11, (0,), 'mm', 40]
+_MIXED = ['a', 7, (1, 2), '', 3.5, ('k',), 0, 'Q', 11, (0,), 'mm', -2]
 
 
 def make_span(spec):
